@@ -117,7 +117,7 @@ Proof.
     destruct (find_sub_element T newty (n_name cn) v) as [r1| |]; cbn [bind] in H; try discriminate.
     destruct (find_sub_element T newty (n_name cn) U32MAX) as [r2| |]; cbn [bind] in H; try discriminate.
     destruct (match r1 with Some x => Some x | None => r2 end) as [[tc ixs]|]; [|exact (IH _ H)].
-    destruct (get_sub_element_version_mask T oldty ixs) as [o| |]; cbn [bind] in H; try discriminate.
+    destruct (get_sub_element_version_mask T newty ixs) as [o| |]; cbn [bind] in H; try discriminate.
     destruct o as [vm|]; cbn [unwrap bind] in H; try discriminate.
     destruct (compatible v vm) eqn:Ec; cbn [negb] in H.
     + destruct (rec c) as [[e1 m1]| |] eqn:Er; cbn [bind] in H; try discriminate.
